@@ -86,6 +86,10 @@ def dependent_text(rng, obs, files, exp=None, ptr=4):
     return "".join("use %s::%s;\n" % ("::".join(obs), u) for u in sorted(uses)) + "\n" + "\n\n".join(out) + "\n"
 
 
+KINDS = ["ancestor", "namesake", "type_import_parent", "sibling", "ancestor", "child", "namesake", "type_import_parent", "toplevel"]
+PROBE_COUNTER = [0]
+
+
 def capture_probe(rng):
     """a hand-shaped pair: the observed module gets a name through a MODULE import; a module that is not in
     its scope (an enclosing module, a sibling, a nested child, an unrelated top-level module) starts to
@@ -94,7 +98,8 @@ def capture_probe(rng):
     name = rng.choice(["Vec3", "Node", "Handle"])
     lib = rng.choice([["lib"], ["core", "math"]])
     obs = rng.choice([["game", "entity"], ["game", "world", "actor"], ["app"]])
-    where = rng.choice(["ancestor", "sibling", "child", "toplevel", "namesake", "namesake", "type_import_parent", "type_import_parent"])
+    where = KINDS[PROBE_COUNTER[0] % len(KINDS)]        # every kind in turn, so that each is exercised in every run
+    PROBE_COUNTER[0] += 1
     if where == "ancestor" and len(obs) < 2:
         where = "toplevel"
     # namesake: a module in another directory whose file has the same name as the observed module's; it looks the
@@ -188,6 +193,7 @@ def unrelated_change(rng, files, dep, obs=None, exp=None, ptr=4):
 
 def runner(pid, prop, tier, seed, scratch, replay=None):
     rng = random.Random(seed)
+    PROBE_COUNTER[0] = seed
     npairs = 250 if tier == "quick" else 5000
     pairs = []
     cases = []
@@ -200,7 +206,7 @@ def runner(pid, prop, tier, seed, scratch, replay=None):
         i = 0
         while len(pairs) < npairs and i < npairs * 6:
             ptr = 4 if i % 2 == 0 else 8
-            if rng.random() < 0.12:
+            if rng.random() < 0.2:
                 i += 1
                 files, newf, obs, what = capture_probe(rng)
                 cases.append(dict(id="c19-%d-a" % len(pairs), ptr=ptr, schedule=[], files=files))
